@@ -27,7 +27,12 @@ tag names"), NOT read from the library:
   * an abbreviation whose last group(s) are not closed yet is outside the documented grammar: it may be rejected; when
     it is expanded, the tree must be the one the operators written so far denote (the open group has no `*N`).
 """
+import json
+import os
+
 import abbr_gen as g
+
+CORPUS = os.path.join(os.path.dirname(os.path.dirname(os.path.abspath(__file__))), 'corpus', 'C01')
 
 # attribute sets as (label, [attrs in abbr_gen.El form: (name text, value or None, quote)])
 ATTR_FORMS = [
@@ -195,6 +200,15 @@ def rare_cases(ctx, names, configs, parents):
     out = []
     seen = set()
     k = [0]
+    # ---- corpus/C01/*.json: inputs that exposed defects ({"abbr", "config", "metas": [preorder, ...], "may_reject", "note"})
+    if os.path.isdir(CORPUS):
+        for fn in sorted(os.listdir(CORPUS)):
+            if fn.endswith('.json'):
+                with open(os.path.join(CORPUS, fn)) as f:
+                    recs = json.load(f)
+                for rec in (recs if isinstance(recs, list) else [recs]):
+                    out.append((rec['abbr'], rec.get('config') or {}, [[tuple(x) for x in m] for m in rec['metas']], bool(rec.get('may_reject'))))
+                    ctx.cover('rare:corpus')
 
     def emit(stmt, label, cfg=None):
         stmt = fix_empty_children(stmt)
